@@ -1510,6 +1510,12 @@ func (ft *FuncTr) typeInvNoAlloc(t *Term, ty types.Type) *Term {
 
 // goEdge records control flow from b to succ (handles back edges)
 func (ft *FuncTr) goEdge(b, succ *ssa.BasicBlock, cond *Term, st *State) error {
+	// (also for back edges: leaving an inner loop may jump straight to the header of the enclosing one)
+	if b != nil {
+		if err := ft.checkComplete(b, succ, cond); err != nil {
+			return err
+		}
+	}
 	if succ.Dominates(b) {
 		l := ft.loops[succ]
 		if l == nil {
@@ -1580,11 +1586,6 @@ func (ft *FuncTr) goEdge(b, succ *ssa.BasicBlock, cond *Term, st *State) error {
 		}
 		return nil
 	}
-	if b != nil {
-		if err := ft.checkComplete(b, succ, cond); err != nil {
-			return err
-		}
-	}
 	ft.edges[succ] = append(ft.edges[succ], Edge{b, cond, st})
 	return nil
 }
@@ -1592,6 +1593,9 @@ func (ft *FuncTr) goEdge(b, succ *ssa.BasicBlock, cond *Term, st *State) error {
 // checkComplete: for loops declared complete, an edge from a block of the loop other than its header to a block outside
 // the loop (break, goto) must be unreachable. succ == nil stands for a return inside the loop.
 func (ft *FuncTr) checkComplete(b, succ *ssa.BasicBlock, cond *Term) error {
+	if os.Getenv("GOVC_DEBUG_COMPLETE") != "" && succ != nil {
+		fmt.Fprintf(os.Stderr, "edge b%d(%s) -> b%d(%s)\n", b.Index, b.Comment, succ.Index, succ.Comment)
+	}
 	for _, l := range ft.loops {
 		ls := ft.c.Loops[l.Ordinal]
 		if ls == nil || ls.Complete == nil || !l.Blocks[b] || b == l.Header {
@@ -1599,6 +1603,9 @@ func (ft *FuncTr) checkComplete(b, succ *ssa.BasicBlock, cond *Term) error {
 		}
 		if succ != nil && l.Blocks[succ] {
 			continue
+		}
+		if os.Getenv("GOVC_DEBUG_COMPLETE") != "" {
+			fmt.Fprintf(os.Stderr, "complete: loop %d early exit b%d -> %v\n", l.Ordinal, b.Index, succ)
 		}
 		id := ls.Complete.Name
 		if id == "" {
